@@ -639,14 +639,17 @@ Proof.
   set (s := jump_until _ s0 _) in *.
   destruct ((v_r (k_vot s) =? cp_round cp) && (v_h (k_vot s) =? hd_height hd)) eqn:Hpos; cbn [negb]; [|discriminate].
   apply andb_true_iff in Hpos as [Hr Hh]. apply N.eqb_eq in Hr, Hh.
-  assert (Hsame : forall r0, Ok (s, r0) = Ok (s', res) -> cinv ih ivs s' /\ adv s0 s')
-    by (intros r0 E; inversion E; subst; split; assumption).
+  assert (Hsame : forall r0, Ok (s0, r0) = Ok (s', res) -> cinv ih ivs s' /\ adv s0 s')
+    by (intros r0 E; inversion E; subst; split; [exact H0|apply adv_refl]).
   destruct (hd_ok hd) eqn:Hok; cbn [negb]; [|apply Hsame].
   destruct (negb (hd_height hd =? k_init_h s) && negb (bytes_eqb (hd_prev hd) (chdr_hash s))) eqn:Hprev; [apply Hsame|].
   destruct (valset_equal (hd_vals hd) (v_vals (k_vot s)) && vs_ok (hd_vals hd)); cbn [negb]; [|apply Hsame].
   destruct (vs_ok (hd_next hd)) eqn:Hnext; cbn [negb]; [|apply Hsame].
-  destruct (fold_left _ (cp_proofs cp) ([], true)) as [temp allv].
+  destruct (fold_left _ (signed_entries (cp_proofs cp)) ([], true)) as [temp allv].
   destruct (negb allv); [apply Hsame|].
+  destruct (pm_get temp (hd_hash hd)); [|apply Hsame].
+  unfold bind at 1. destruct (byz_majority _); [|discriminate].
+  destruct (_ <? _); [apply Hsame|].
   fold (replay_insert s hd (cp_round cp)).
   unfold bind at 1. destruct (replay_insert s hd (cp_round cp)) as [s1|] eqn:Hins; [|discriminate].
   pose proof (replay_checks_good _ _ _ _ (cp_round cp) H Hh Hok Hnext Hb Hprev) as Hgood.
@@ -654,9 +657,6 @@ Proof.
   assert (A1 : adv s0 s1).
   { eapply adv_trans; [exact A|]. destruct F1 as (F1a&F1b&F1c&F1d&F1e).
     unfold adv. rewrite F1a, F1b, F1c, F1d, F1e. repeat split; try lia; auto. apply rs_refl. }
-  destruct (pm_get temp (hd_hash hd)); [|intros E; inversion E; subst; split; assumption].
-  unfold bind at 1. destruct (byz_majority _); [|discriminate].
-  destruct (_ <? _); [intros E; inversion E; subst; split; assumption|].
   unfold bind. destruct (check_voting_precommit_shift _) as [s3|] eqn:Hc; [|discriminate].
   intros E; inversion E; subst.
   match type of Hc with check_voting_precommit_shift ?X = _ => set (s2 := X) in * end.
